@@ -17,4 +17,18 @@ func init() {
 			"net/http server loop": "stub: requests are handed to ZnHttpHandler.ServeHTTP directly",
 		},
 	}
+	props["C17"] = &propCfg{
+		ID: "C17", Harness: "disk",
+		Quick:    tierCfg{Runs: 40000, Procs: 8, WallS: 600},
+		Thorough: tierCfg{Runs: 1500000, Procs: 16, Seeds: 3, WallS: 3000},
+		Rule: "one evaluation = one byte string (valid UTF-8 built from 1/2/3/4-byte characters and the legitimate U+FFFD with lengths around 0, 1, 4095-4097, 8191-8193, 13000 and an alignment shift; zero/one/two BOMs; or one of 8 corruption classes incl. GBK text at a drawn position) put on the simulated disk and decoded through FileStream.ReadAll, ByteStream.ReadAll or end to end through LoadFile(...).Execute of an n-line program whose line i displays i; profile `regular` = full reads, no faults; profile `stream` = the length of every read (full/shorter/1 byte/just short of full) and one EIO are tape decisions. Oracle: utf8.Valid ? runes minus one leading BOM : error; injected EIO => error, never a prefix; fewer displayed lines without error = silently truncated program. distinct_nontrivial = distinct (profile, target, file class, corruption, EIO planned, size class) tuples.",
+		Assume: []string{
+			"T2 routes os.Open/os.Stat of pkg/io and pkg/exec to the simulated disk; the simulated reads return any length a POSIX read may return (>=1 byte, or 0+EOF at the end)",
+			"the reference decoder is unicode/utf8.Valid + []rune conversion",
+		},
+		Components: map[string]string{
+			"pkg/io (FileStream, ByteStream, readRune), pkg/exec (LoadFile finder, Execute), parser, evaluator": "real code (transformed copy)",
+			"file system / read(2)": "simulated disk (zsim.Disk) with tape-chosen read lengths and EIO",
+		},
+	}
 }
